@@ -17,4 +17,4 @@ require (
 	golang.org/x/sys v0.24.0 // indirect
 )
 
-replace src.elv.sh => /tmp/wt-c42
+replace src.elv.sh => /tmp/wt-c35b
